@@ -199,3 +199,28 @@ Theorem C03_restart_only_when_allowed : forall cf e sug ws st1 stop,
   World.e_completed (World.e_st e) = true /\ WorldPlan.restart_enabled_e cf e = true /\ st1 = World.mark_restarting (World.e_st e).
 Proof. exact WorldPlan.plan_restart_only_when_allowed. Qed.
 Print Assumptions C03_restart_only_when_allowed.
+
+From KV Require Proofs.WorldInv2 Proofs.WorldInv5 Proofs.WorldThm.
+
+(* Stability over the joint model, one step: in any state reachable... (more precisely: in any state satisfying the
+   inductive invariant) whose experiment carries a verdict with no restart enabled, EVERY action — a reconcile of any
+   controller starting from any stale cache, any pending write landing or failing, aborts, job / metrics / early-stop
+   events, cache syncs, the user raising maxTrialCount — leaves Succeeded/Failed (status and reason), Running and the
+   completion time exactly as they are. *)
+Theorem C03_stable_step : forall w a e,
+  WorldInv2.Inv w -> World.is_teardown a = false -> World.w_exp w = Some e ->
+  World.e_completed (World.e_st e) = true -> WorldPlan.restart_enabled_e (World.w_cfg w) e = false ->
+  exists e', World.w_exp (World.step w a) = Some e' /\ WorldPlan.verdict_same (World.e_st e) (World.e_st e').
+Proof. exact WorldThm.verdict_stable_step. Qed.
+Print Assumptions C03_stable_step.
+
+(* Over runs: from any reachable state with a verdict, for as long as no restart is enabled in the states passed
+   through, the verdict, its reason, Running = false and the completion time are those of the first state. *)
+Theorem C03_stable : forall c acts1 acts2 e,
+  World.valid_cfg c -> WorldInv5.no_teardown (acts1 ++ acts2) ->
+  World.w_exp (World.run c acts1) = Some e -> World.e_completed (World.e_st e) = true ->
+  (forall pre post e1, acts2 = pre ++ post -> World.w_exp (World.run c (acts1 ++ pre)) = Some e1 ->
+                       WorldPlan.restart_enabled_e c e1 = false) ->
+  exists e', World.w_exp (World.run c (acts1 ++ acts2)) = Some e' /\ WorldPlan.verdict_same (World.e_st e) (World.e_st e').
+Proof. exact WorldThm.verdict_stable_run. Qed.
+Print Assumptions C03_stable.
